@@ -116,8 +116,8 @@ def run(ses, rep):
         raise Inconclusive(f"brace positions not found in the integer slice: {list(sym)}")
     nl = sym.get("trivia_is_newline#0")
     ws0, ws1 = sym.get("trivia_is_whitespace#0"), sym.get("trivia_is_whitespace#1")
-    if nl is None or ws0 is None or ws1 is None:
-        raise Inconclusive(f"whitespace flags not found in the integer slice: {list(sym)}")
+    if nl is None:
+        raise Inconclusive(f"newline flag not found in the integer slice: {list(sym)}")
     has_fields = sym["has_fields"]
 
     class Dec:
@@ -159,7 +159,9 @@ def run(ses, rep):
 
     def subst_for(start, end, ws_open, ws_close, newline, any_other_ws):
         s_ = [(sym[n], start) for n in start_names] + [(sym[n], end) for n in end_names]
-        s_ += [(nl, newline), (ws0, ws_open), (ws1, ws_close), (has_fields, z3.BoolVal(True))]
+        s_ += [(nl, newline), (has_fields, z3.BoolVal(True))]
+        s_ += [(ws0, ws_open)] if ws0 is not None else []
+        s_ += [(ws1, ws_close)] if ws1 is not None else []
         for n, v in sym.items():
             if n.startswith("trivia_is_whitespace#") and n not in ("trivia_is_whitespace#0", "trivia_is_whitespace#1"):
                 s_.append((v, any_other_ws))
